@@ -24,10 +24,13 @@
 
   Answer:  <status> <ctype> <corr 0/1> <body> # <action>* cfg:<ser>:<tmo>   |   escaped <cls> # <action>* cfg:..
            (cfg = the configuration in force while and after the request)
+  Next to the model the driver evaluates the transcription of the source (`appSrc`, `configWriteSrc` of
+  PyroModel/Gen/C20Src.lean); if it answers differently the line ends with SOURCE-TRANSCRIPTION-DIFFERS: <its answer>.
   If the model asked `rmatch` for a name outside the table the answer is "bad-table" (the model is
   run with both defaults and the answers compared).
 -/
 import PyroModel.Gateway
+import PyroModel.Gen.C20Src
 import Driver.Util
 
 open Pyro Pyro.Gateway Driver
@@ -191,7 +194,12 @@ def step : List String → String
       let tmo ← appTmo.toNat?
       let out (dflt : Bool) : String :=
         let o := appC cfg tmo (be dflt) before req
-        sOut (o.reply, o.actions) ++ s!" cfg:{sSer o.config.serializer}:{o.config.commTimeout}"
+        -- the transcription of the source (Gen/C20Src.lean) is evaluated next to the hand-written model
+        let src := Pyro.Gen.C20Src.appSrc cfg (be dflt) req
+        let srcCfg := Pyro.Gen.C20Src.configWriteSrc tmo before
+        let base := sOut (o.reply, o.actions) ++ s!" cfg:{sSer o.config.serializer}:{o.config.commTimeout}"
+        if sOut src == sOut (o.reply, o.actions) && srcCfg == o.config then base
+        else base ++ " SOURCE-TRANSCRIPTION-DIFFERS: " ++ sOut src ++ s!" cfg:{sSer srcCfg.serializer}:{srcCfg.commTimeout}"
       let o1 := out false
       let o2 := out true
       pure (if o1 == o2 then o1 else "bad-table")
